@@ -165,6 +165,119 @@ func nativeBigBurst(r *nrec, rng *rand.Rand) {
 	}
 }
 
+// N4: outcomes under real parallelism: every handle must report its own job's outcome
+func nativeOutcomes(r *nrec, rng *rand.Rand) {
+	type pv struct{ N int }
+	expectErr := func(d int, kind string) string {
+		switch d % 5 {
+		case 1:
+			return fmt.Sprintf("e%d", d)
+		case 2:
+			return fmt.Sprintf("panic recovered inside %s: %v", kind, d) // panic(int)
+		case 3:
+			return fmt.Sprintf("panic recovered inside %s: %v", kind, pv{d}) // panic(struct)
+		}
+		return ""
+	}
+	body := func(d int) error {
+		switch d % 5 {
+		case 1:
+			return fmt.Errorf("e%d", d)
+		case 2:
+			panic(d)
+		case 3:
+			panic(pv{d})
+		}
+		return nil
+	}
+	n := 300
+	{
+		w := NewErrWorker(func(j Job[int]) error { return body(j.Data()) }, 6)
+		q := w.BindQueue()
+		go func() {
+			for range w.Errs() {
+			}
+		}()
+		hs := make([]EnqueuedErrJob, n)
+		for i := 0; i < n; i++ {
+			hs[i], _ = q.Add(i)
+		}
+		for i, h := range hs {
+			got := ""
+			if err := h.Err(); err != nil {
+				got = err.Error()
+			}
+			if want := expectErr(i, "err-worker"); got != want {
+				r.add("C07", "wrong-outcome", "error worker, concurrency 6: Err() of job %d returned %q, its worker function produced %q", i, got, want)
+				break
+			}
+		}
+		w.WaitUntilFinished()
+		m := w.Metrics()
+		if m.Completed() != uint64(n) || m.Failed() != uint64(3*n/5) || m.Successful()+m.Failed() != m.Completed() {
+			r.add("C07", "metrics", "error worker: Completed=%d Successful=%d Failed=%d for %d jobs of which %d fail", m.Completed(), m.Successful(), m.Failed(), n, 3*n/5)
+		}
+		w.Stop()
+	}
+	{
+		w := NewResultWorker(func(j Job[int]) (int, error) { return j.Data() * 3, body(j.Data()) }, 6)
+		q := w.BindPriorityQueue()
+		go func() {
+			for range w.Errs() {
+			}
+		}()
+		hs := make([]EnqueuedResultJob[int], n)
+		for i := 0; i < n; i++ {
+			hs[i], _ = q.Add(i, i%3)
+		}
+		for i, h := range hs {
+			v, err := h.Result()
+			got := ""
+			if err != nil {
+				got = err.Error()
+			}
+			want := expectErr(i, "result-worker")
+			if got != want || (want == "" && v != i*3) {
+				r.add("C07", "wrong-outcome", "result worker, concurrency 6: Result() of job %d returned (%d, %q), its worker function produced (%d, %q)", i, v, got, i*3, want)
+				break
+			}
+			if v2, err2 := h.Result(); (err2 == nil) != (err == nil) || v2 != v {
+				r.add("C07", "unstable-outcome", "Result() of job %d differs between calls", i)
+				break
+			}
+		}
+		w.Stop()
+	}
+	{
+		var ran atomic.Int64
+		w := NewWorker(func(j Job[int]) {
+			ran.Add(1)
+			if j.Data()%4 == 0 {
+				panic([]byte("bytes"))
+			}
+		}, 4)
+		q := w.BindQueue()
+		nerr := atomic.Int64{}
+		done := make(chan struct{})
+		go func() {
+			for range w.Errs() {
+				nerr.Add(1)
+			}
+			close(done)
+		}()
+		for i := 0; i < 100; i++ {
+			q.Add(i)
+		}
+		w.WaitUntilFinished()
+		m := w.Metrics()
+		if ran.Load() != 100 || m.Failed() != 25 || m.Successful() != 75 {
+			r.add("C07", "panic-not-contained", "plain worker: %d of 100 jobs ran, Failed=%d Successful=%d (25 of them panic with a []byte)", ran.Load(), m.Failed(), m.Successful())
+		}
+		w.Stop()
+	}
+	r.stat("outcomes.jobs", 2*n+100)
+}
+
 // N3: race mix — concurrent use of the whole public API under the race detector
 func nativeRaceMix(r *nrec, rng *rand.Rand, round int) {
 	kind := round % 3
@@ -397,6 +510,9 @@ func TestVerifNative(t *testing.T) {
 	}
 	if has("bigburst") {
 		nativeBigBurst(r, rng)
+	}
+	if has("outcomes") {
+		nativeOutcomes(r, rng)
 	}
 	if has("racemix") {
 		for i := 0; i < rounds; i++ {
